@@ -361,7 +361,7 @@ pub fn run(ctx: &Ctx, rep: &mut Report) {
     rep.prop(
         "lists",
         "proptest: message lists of 0..500 messages composed of radial runs (any elevation pattern, any block subset), status, VCP and opaque-type messages, headers timestamped or zero; oracle = reference grouping / counting / time-range / VCP-set model; non-trivial = >= 3 groups with >= 1 continued radial group and >= 1 singleton status/VCP group",
-        ctx.tier.pick(40_000, 6_000_000),
+        ctx.tier.pick(400_000, 6_000_000),
         move || {
             let n = prop_oneof![1 => Just(0usize), 2 => Just(1usize), 8 => 2usize..=8, 3 => 9usize..=24];
             (n.prop_flat_map(move |n| vec(item_strategy(max_run), n)), gen::msg_header(31, Some(true))).prop_map(|(items, base_header)| ListCase { items, base_header })
